@@ -70,6 +70,13 @@ type Interp struct {
 	initMode  bool
 	mapRev    bool
 
+	// goroutine model (sched.go)
+	tasks         []*gtask
+	curTask       *gtask
+	abort         interface{}
+	killing       bool
+	blockedStreak int
+
 	statKnown, statFast, statNarrow, statSolver int
 	curFn                                       string
 }
@@ -520,7 +527,11 @@ func (in *Interp) run(fr *Frame) (result Value) {
 				cc := &x.Call
 				fr.defers = append(fr.defers, func() { in.doCall(f, args, cc) })
 			case *ssa.Go:
-				in.end("unsupported", "go statement")
+				f, args := in.prepareCall(fr, &x.Call)
+				if _, isB := f.(*ssa.Builtin); isB {
+					in.end("unsupported", "go builtin")
+				}
+				in.spawn(f, args)
 			case *ssa.Send:
 				ch, _ := in.get(fr, x.Chan).(*Chan)
 				if ch == nil {
